@@ -533,7 +533,7 @@ def _keep_running(ctx, acm, sync, graph, loop, cvar, ksync):
                     return True
                 if key[0] == 'cmp' and key[1] == '!=' and \
                         cvar in [t for t, _c in key[2]] and any(
-                            t.startswith(cmap + '[') for t, _c in key[2]):
+                            t.startswith((cmap + '[', cmap + '.get(')) for t, _c in key[2]):
                     return True
             return False
         ctx.ob('C13.4', sync, node, K.guarded_by(graph, node, differs,
@@ -779,7 +779,7 @@ def _nothing_dropped(ctx, sync, graph, loop, cvar):
             key = atom.key
             if key[0] == 'cmp' and key[1] == '==' and \
                     cvar in [t for t, _c in key[2]] and any(
-                        t.startswith(cmap + '[') for t, _c in key[2]):
+                        t.startswith((cmap + '[', cmap + '.get(')) for t, _c in key[2]):
                 return True
             if key[0] == 'truth' and key[2] and 'cleanup_dir' in key[1] \
                     and 'exists' in key[1]:
@@ -947,8 +947,9 @@ def _owner_package(ctx):
 
 
 def check(ctx):
-    if ctx.tier == 'thorough':
-        _owner_package(ctx)
+    # whole-package OWNER clauses: cheap enough for every run (one parse of
+    # the package, a text prefilter per module)
+    _owner_package(ctx)
     _generation_id(ctx)
     # shared with C15.2: container name <-> instance name mapping
     # (appcfg.app_name / _fmt_unique_name / gen_uniqueid)
@@ -973,7 +974,7 @@ _A = 'lib/python/treadmill/appcfgmgr.py'
 _MO = 'lib/python/treadmill/monitor.py'
 
 MUTANTS = [
-    ('foreign-writer-of-the-running-dir', [('lib/python/treadmill/cleanup.py', '        cleanup_link = os.path.join(self.tm_env.cleanup_dir, instance)\n        try:\n            container_dir = os.readlink(cleanup_link)\n', '        cleanup_link = os.path.join(self.tm_env.cleanup_dir, instance)\n        fs.rm_safe(os.path.join(self.tm_env.running_dir, instance))\n        try:\n            container_dir = os.readlink(cleanup_link)\n')], 'C13.6', 'thorough'),
+    ('foreign-writer-of-the-running-dir', [('lib/python/treadmill/cleanup.py', '        cleanup_link = os.path.join(self.tm_env.cleanup_dir, instance)\n        try:\n            container_dir = os.readlink(cleanup_link)\n', '        cleanup_link = os.path.join(self.tm_env.cleanup_dir, instance)\n        fs.rm_safe(os.path.join(self.tm_env.running_dir, instance))\n        try:\n            container_dir = os.readlink(cleanup_link)\n')], 'C13.6'),
     ('cleanup-test-instance-only', [(_A, """            elif (os.path.exists(os.path.join(self.tm_env.cleanup_dir,
                                               appname)) or
                   os.path.exists(os.path.join(self.tm_env.cleanup_dir,
